@@ -594,6 +594,9 @@ func (g *genCtx) imports(ti *typeInfo) {
 			if e.Kind == "call" && e.RecvText != "" && e.RecvText != "this" {
 				addType(e.RecvText)
 			}
+			if e.Kind == "lambda" && e.LambdaParamType != "" {
+				addType(e.LambdaParamType)
+			}
 		})
 	}
 	forcedSet := map[string]bool{}
